@@ -45,7 +45,8 @@ with block := Block (items : list item)
 with item := Item (lead : list triv) (s : stmt) (semi : option (list triv * list triv)) (trail : list triv).
 
 Inductive qstyle := AutoDouble | AutoSingle | ForceDouble | ForceSingle.
-Record cfg := { c_nl : bytes; c_indent : bytes; c_quote : qstyle }.
+Inductive cpmode := CPAlways | CPNoString | CPNoTable | CPNone | CPInput.
+Record cfg := { c_nl : bytes; c_indent : bytes; c_quote : qstyle; c_cp : cpmode; c_sp_call : bool; c_sp_def : bool }.
 
 (* ---------------- strings and numbers ---------------- *)
 Definition bs : ascii := "\".
@@ -218,13 +219,19 @@ Fixpoint fe (lvl : nat) (k : ctx) (e : expr) {struct e} : bytes :=
   | EBin o l r => fe lvl (if is_caret o then BLE else BL) l ++ " " :: o ++ " " :: fe lvl UB r
   | EChain p sufs =>
       (match p with PName s => s | PParen x => "(" :: fe lvl Std x ++ [")"] end)
-      ++ flat_map (fun s => match s with
-                            | SDot n => "." :: n
-                            | SIdx x => if is_br_string x then "[" :: " " :: fe lvl Std x ++ [" "; "]"] else "[" :: fe lvl Std x ++ ["]"]
-                            | SCall a => fa lvl a
-                            | SMeth n a => ":" :: n ++ fa lvl a
-                            end) sufs
-  | EFunc ps b => str "function(" ++ params_txt ps ++ ")" :: body_txt lvl b (fblock (S lvl) b)
+      ++ (fix go (l : list suffix) : bytes :=
+            match l with
+            | [] => []
+            | s :: r =>
+              let obscure := match r with (SDot _ | SIdx _ | SMeth _ _) :: _ => true | _ => false end in
+              (match s with
+               | SDot n => "." :: n
+               | SIdx x => if is_br_string x then "[" :: " " :: fe lvl Std x ++ [" "; "]"] else "[" :: fe lvl Std x ++ ["]"]
+               | SCall a => fa lvl obscure a
+               | SMeth n a => ":" :: n ++ fa lvl obscure a
+               end) ++ go r
+            end) sufs
+  | EFunc ps b => str "function" ++ (if c_sp_def c then [" "] else []) ++ "(" :: params_txt ps ++ ")" :: body_txt lvl b (fblock (S lvl) b)
   | ETbl fs nl => tbl_txt lvl fs nl (map (ffield lvl) fs) (map (ffield (S lvl)) fs)
   end
 with ffield (lvl : nat) (f : field) {struct f} : bytes :=
@@ -233,9 +240,20 @@ with ffield (lvl : nat) (f : field) {struct f} : bytes :=
   | FName n e => n ++ str " = " ++ fe lvl Std e
   | FExpr k v => (if is_br_string k then "[" :: " " :: fe lvl Std k ++ [" "; "]"] else "[" :: fe lvl Std k ++ ["]"]) ++ str " = " ++ fe lvl Std v
   end
-with fa (lvl : nat) (a : args) {struct a} : bytes :=
+with fa (lvl : nat) (obscure : bool) (a : args) {struct a} : bytes :=
+  let sp := if c_sp_call c then [" "] else [] in
+  let omit_str := match c_cp c with CPNoString | CPNone => negb obscure | _ => false end in
+  let omit_tbl := match c_cp c with CPNoTable | CPNone => negb obscure | _ => false end in
   match a with
   | AParen es =>
+      let sugar := match c_cp c, es with
+                   | CPInput, _ => None
+                   | _, [e1] => match e1 with
+                                | EStr q d body => if omit_str then Some (sp ++ " " :: fmt_string c q d body) else None
+                                | ETbl fs nl => if omit_tbl then Some (sp ++ " " :: tbl_txt lvl fs nl (map (ffield lvl) fs) (map (ffield (S lvl)) fs)) else None
+                                | _ => None end
+                   | _, _ => None end in
+      match sugar with Some t => t | None => sp ++
       let ts := map (fe lvl Std) es in
       (* multi-line heuristic at unbounded width: mixture of expanded and plain arguments, or a complex argument *)
       let expanded (e : expr) := match eff e with EFunc _ b => negb (block_empty b) | ETbl _ _ => has LF (fe lvl Std e) | _ => false end in
@@ -250,11 +268,16 @@ with fa (lvl : nat) (a : args) {struct a} : bytes :=
                      existsb (fun e => match eff e with EFunc _ _ | ETbl _ _ | EParen _ | EUn _ _ | EBin _ _ _ => false | _ => has LF (fe lvl Std e) end) es in
       let multi := st 0 es || complex in
       let hug := multi && match es with [e1] => match eff e1 with ETbl _ _ => true | _ => false end | _ => false end in
-      if multi && negb hug
+      (if multi && negb hug
       then "(" :: c_nl c ++ join ("," :: c_nl c) (map (fun e => ind (S lvl) ++ fe (S lvl) Std e) es) ++ c_nl c ++ ind lvl ++ [")"]
-      else "(" :: join (str ", ") ts ++ [")"]
-  | AStr q d body => "(" :: fmt_string c q d body ++ [")"]
-  | ATbl fs nl => "(" :: tbl_txt lvl fs nl (map (ffield lvl) fs) (map (ffield (S lvl)) fs) ++ [")"]
+      else "(" :: join (str ", ") ts ++ [")"])
+      end
+  | AStr q d body =>
+      if (match c_cp c with CPInput => true | _ => omit_str end) then sp ++ " " :: fmt_string c q d body
+      else sp ++ "(" :: fmt_string c q d body ++ [")"]
+  | ATbl fs nl =>
+      let t := tbl_txt lvl fs nl (map (ffield lvl) fs) (map (ffield (S lvl)) fs) in
+      if (match c_cp c with CPInput => true | _ => omit_tbl end) then sp ++ " " :: t else sp ++ "(" :: t ++ [")"]
   end
 with fs_ (lvl : nat) (s : stmt) {struct s} : bytes :=
   let cond (e : expr) := match e with EParen x => fe lvl Std x | _ => fe lvl Std e end in
@@ -285,8 +308,8 @@ with fs_ (lvl : nat) (s : stmt) {struct s} : bytes :=
            ++ ind lvl ++ str "do" ++ c_nl c ++ fblock (S lvl) b ++ ind lvl ++ str "end"
       else str "for " ++ join (str ", ") ns ++ str " in " ++ exprs es ++ str " do" ++ c_nl c ++ fblock (S lvl) b ++ ind lvl ++ str "end"
   | SFunction ns meth ps b =>
-      str "function " ++ join (str ".") ns ++ (match meth with Some m => ":" :: m | None => [] end) ++ "(" :: params_txt ps ++ ")" :: body_txt lvl b (fblock (S lvl) b)
-  | SLocalFunction n ps b => str "local function " ++ n ++ "(" :: params_txt ps ++ ")" :: body_txt lvl b (fblock (S lvl) b)
+      str "function " ++ join (str ".") ns ++ (match meth with Some m => ":" :: m | None => [] end) ++ (if c_sp_def c then [" "] else []) ++ "(" :: params_txt ps ++ ")" :: body_txt lvl b (fblock (S lvl) b)
+  | SLocalFunction n ps b => str "local function " ++ n ++ (if c_sp_def c then [" "] else []) ++ "(" :: params_txt ps ++ ")" :: body_txt lvl b (fblock (S lvl) b)
   | SReturn es => match es with [] => str "return" | _ => str "return " ++ exprs es end
   | SBreak => str "break"
   end
